@@ -19,7 +19,7 @@ def fresh_name(sk, names, label="new", letters="acdeghjkmnoqstvwxyz", extra_rese
     return new
 
 
-def run_refactoring(sk, build_op, prop, check_imports=True, require_run_ok=True, extra_reserved=(), post=None, prefs=None):
+def run_refactoring(sk, build_op, prop, check_imports=True, require_run_ok=True, extra_reserved=(), post=None, prefs=None, tagger=None):
     """one path: instantiate the skeleton, build the operation (may use choose/sym), call rope,
     judge.  build_op(sk, names, files, cf) -> op dict (values may be proxies) or raises PathAbort"""
     E = core.ENGINE
@@ -64,6 +64,13 @@ def run_refactoring(sk, build_op, prop, check_imports=True, require_run_ok=True,
         f_ = h.fail(verdict, detail, model=m, skeleton=sk.name, files=files, op=op, partition=partition_sig(pat), entry=sk.entry, prop=prop)
         exc_after = detail.rsplit(", ", 1)[-1] if verdict == "behaviour_changed" else ""
         f_["sig_hint"] = "%s:%s:%s" % (verdict, "".join("+" + k for k in ("global_", "similar", "remove", "only_current") if cop.get(k) is True) + cop["api"], exc_after)
+        if tagger is not None:
+            # root-cause tags (the same function the replay uses): failures with different tags are
+            # different groups, so an unknown cause is never hidden behind a known one
+            try:
+                f_["sig_hint"] += ":" + ",".join(tagger(cf, cop))
+            except Exception:
+                f_["sig_hint"] += ":untagged"
         return f_
     return h.sample(skeleton=sk.name, files=files, op=op)
 
